@@ -288,7 +288,14 @@ pub fn scientific(sci: &(Base,Exponent)) -> Value {
   if *sign {
     exp_f64 = -exp_f64;
   }
-  let num = num_f64 * 10f64.powf(exp_f64);
+  // An integer exponent spells an ordinary decimal number: parse that spelling so the
+  // result is the nearest f64 (scaling by powf rounds twice: 4.35e2 gave 434.99999999999994).
+  let num = if d.chars().all(|ch| ch == '0') {
+    let exp_digits = if c.is_empty() { "0" } else { c.as_str() };
+    format!("{}.{}e{}{}", a, b, if *sign { "-" } else { "" }, exp_digits).parse::<f64>().unwrap()
+  } else {
+    num_f64 * 10f64.powf(exp_f64)
+  };
   Value::F64(Ref::new(num))
 }
 
